@@ -100,29 +100,47 @@ def lean_sources_for(prop_module_file):
     return seen
 
 
+def prop_modules(prop_id):
+    """all property files of one property: Properties/Cxx.lean and Properties/Cxx<Suffix>.lean"""
+    d = LEAN / "AgpTpf" / "Properties"
+    return sorted(p for p in d.glob(f"{prop_id}*.lean") if re.fullmatch(prop_id + r"([A-Za-z_]\w*)?", p.stem))
+
+
 def audit(prop_id):
-    """grep for forbidden constructs + `#print axioms` of every theorem of the property file.
+    """grep for forbidden constructs + `#print axioms` of every theorem of the property's files.
     Returns dict(theorems=[...], axioms={thm: [...]}, forbidden=[...], ok=bool, log=str)."""
-    pf = LEAN / "AgpTpf" / "Properties" / f"{prop_id}.lean"
-    res = {"theorems": [], "axioms": {}, "forbidden": [], "ok": False, "log": ""}
-    if not pf.exists():
+    files = prop_modules(prop_id)
+    res = {"theorems": [], "axioms": {}, "forbidden": [], "ok": False, "log": "", "modules": [f.stem for f in files]}
+    if not files:
         res["log"] = "no property file"
         return res
-    for f in lean_sources_for(pf):
-        body = strip_comments(f.read_text())
-        for m in FORBIDDEN.finditer(body):
-            res["forbidden"].append(f"{f.relative_to(LEAN)}: {m.group(0).strip()}")
-    text = strip_comments(pf.read_text())
-    thms = re.findall(r"^\s*(?:private\s+|protected\s+)?theorem\s+([^\s\(\{\[:]+)", text, flags=re.M)
-    res["theorems"] = thms
-    ns = re.search(r"^namespace\s+([\w\.]+)", text, flags=re.M)
-    nsname = ns.group(1) if ns else ""
+    seen = set()
+    for pf in files:
+        for f in lean_sources_for(pf):
+            if f in seen:
+                continue
+            seen.add(f)
+            body = strip_comments(f.read_text())
+            for m in FORBIDDEN.finditer(body):
+                res["forbidden"].append(f"{f.relative_to(LEAN)}: {m.group(0).strip()}")
+    lines, fulls = [f"import AgpTpf.Properties.{pf.stem}" for pf in files], []
+    for pf in files:
+        text = strip_comments(pf.read_text())
+        # theorems with the namespace that is open at their position
+        ns_stack = []
+        for m in re.finditer(r"^\s*(namespace\s+([\w\.]+)|end\s+([\w\.]+)|(?:private\s+|protected\s+)?theorem\s+([^\s\(\{\[:]+))", text, flags=re.M):
+            if m.group(2):
+                ns_stack.append(m.group(2))
+            elif m.group(3):
+                if ns_stack and ns_stack[-1].split(".")[-1] == m.group(3).split(".")[-1]:
+                    ns_stack.pop()
+            elif m.group(4):
+                fulls.append(".".join(ns_stack + [m.group(4)]))
+    res["theorems"] = [f.split(".")[-1] for f in fulls]
+    for full in fulls:
+        lines.append(f"#print axioms {full}")
     audit_file = LEAN / ".lake" / f"audit_{prop_id}.lean"
     audit_file.parent.mkdir(exist_ok=True)
-    lines = [f"import AgpTpf.Properties.{prop_id}"]
-    for t in thms:
-        full = f"{nsname}.{t}" if nsname else t
-        lines.append(f"#print axioms {full}")
     audit_file.write_text("\n".join(lines) + "\n")
     lake_lock()
     try:
@@ -130,14 +148,17 @@ def audit(prop_id):
     finally:
         lake_unlock()
     res["log"] = out[-4000:]
-    cur = None
-    for m in re.finditer(r"'([^']+(?:'[^' ]*)*)' (depends on axioms: \[([^\]]*)\]|does not depend on any axioms)", out):
-        name = m.group(1).split(".")[-1]
+    reported = {}
+    for m in re.finditer(r"'([^\n]+?)' (depends on axioms: \[([^\]]*)\]|does not depend on any axioms)", out):
         ax = [a.strip() for a in (m.group(3) or "").split(",") if a.strip()]
-        res["axioms"][name] = ax
+        reported[m.group(1)] = ax
+    for full in fulls:
+        if full in reported:
+            res["axioms"][full.split(".")[-1]] = reported[full]
     bad = {t: a for t, a in res["axioms"].items() if not set(a) <= ALLOWED_AXIOMS}
     res["bad_axioms"] = bad
-    res["ok"] = rc == 0 and not res["forbidden"] and not bad and all(t.split(".")[-1] in res["axioms"] for t in thms) and len(thms) > 0
+    res["missing"] = [f for f in fulls if f not in reported]
+    res["ok"] = rc == 0 and not res["forbidden"] and not bad and not res["missing"] and len(fulls) > 0
     return res
 
 
